@@ -19,6 +19,7 @@ import (
 	"net/http/httptest"
 	"net/url"
 	"os"
+	"strconv"
 	"strings"
 
 	"cuelabs.dev/go/oci/ociregistry"
@@ -159,16 +160,19 @@ func refParts(r ociref.Reference) [][]int {
 func (d *refDriver) exec(in refEv) (out refEv) {
 	defer func() {
 		if r := recover(); r != nil {
-			out = refEv{"op": "panic", "in": in, "panic": fmt.Sprintf("%s: %v", d.stage, r)}
+			out = refEv{"a_text": out["a_text"], "op": "panic", "in": in, "panic": fmt.Sprintf("%s: %v", d.stage, r)}
 		}
 	}()
 	out = refEv{}
 	for k, v := range in {
 		out[k] = v
 	}
+	// a_text: the input rendered for human readers of a rejected event (first key of the
+	// line; not read by the specification)
 	switch in["op"] {
 	case "ref":
 		s := refFromCodes(in["s"])
+		out["a_text"] = strconv.QuoteToASCII(s)
 		d.stage = "ociref.IsValidHost"
 		out["host"] = ociref.IsValidHost(s)
 		d.stage = "ociref.IsValidRepository"
@@ -193,10 +197,12 @@ func (d *refDriver) exec(in refEv) (out refEv) {
 		if len(p) == 4 {
 			r = ociref.Reference{Host: refFromCodes(p[0]), Repository: refFromCodes(p[1]), Tag: refFromCodes(p[2]), Digest: ociref.Digest(refFromCodes(p[3]))}
 		}
+		out["a_text"] = strconv.QuoteToASCII(fmt.Sprintf("%#v", r))
 		d.stage = "ociref.Reference.String"
 		out["str"] = refCodes(r.String())
 	case "route":
 		path := refFromCodes(in["path"])
+		out["a_text"] = "GET " + strconv.QuoteToASCII(path)
 		d.backend.calls = nil
 		req := (&http.Request{
 			Method:     "GET",
@@ -222,6 +228,7 @@ func (d *refDriver) exec(in refEv) (out refEv) {
 	case "client":
 		fn, _ := in["fn"].(string)
 		repo, ref := refFromCodes(in["repo"]), refFromCodes(in["ref"])
+		out["a_text"] = fn + "(" + strconv.QuoteToASCII(repo) + ", " + strconv.QuoteToASCII(ref) + ")"
 		tr := &refTransport{}
 		d.stage = "ociclient.New"
 		c, err := ociclient.New("registry.example", &ociclient.Options{Transport: tr})
